@@ -815,6 +815,29 @@ impl StaticKind for SNamingThenProviding {
     }
 }
 
+/// derived bundle, generic over the resource it reads: every instantiation declares ITS resource
+#[derive(shred::SystemData)]
+pub struct GenRead<'a, T>
+where
+    T: shred::Resource + Default,
+{
+    v: Read<'a, T>,
+}
+pub struct SGenReadA;
+impl StaticKind for SGenReadA {
+    type Data<'c> = GenRead<'c, Cell0>;
+    fn touch(d: &mut Self::Data<'_>, _: u64) -> Vec<u64> {
+        vec![d.v.0]
+    }
+}
+pub struct SGenReadC;
+impl StaticKind for SGenReadC {
+    type Data<'c> = GenRead<'c, Cell1>;
+    fn touch(d: &mut Self::Data<'_>, _: u64) -> Vec<u64> {
+        vec![d.v.0]
+    }
+}
+
 /// A system with statically typed data; `setup` is deliberately NOT overridden (the default
 /// `System::setup` -> `SystemData::setup` path is what is being checked through the world).
 pub struct SSys<K: StaticKind> {
